@@ -234,7 +234,7 @@ def body(case, stats):
 
 def worker(widx, seed, tier, stats):
     n = {'quick': 40, 'thorough': 250}[tier]
-    opts = gen.GenOpts(avoid=common.avoid_set(ID), big_sizes=False)
+    opts = gen.GenOpts(avoid=common.avoid_set(ID), big_sizes=False, tiny_focus=6)
     runner.run_given(cases(opts), body, seed, n, stats)
     if tier == 'thorough' and not stats.violations:
         # coverage-guided campaign (atheris): even seeds start from canonical encodings, odd ones from nothing
